@@ -40,6 +40,7 @@ fn dispatch(cmd: &str, args: &[&str]) -> String {
         "serde" => serde_rt::run_path(args),
         "serdev" => serde_rt::run_vcd(args),
         "serdej" => serde_rt::run_json(args),
+        "serdede" => serde_rt::run_de(args),
         "ghwslices" => slice::run_ghw(args),
         "ghwaliases" => slice::run_aliases(args),
         "canonfile" => slice::run_canonfile(args),
